@@ -92,7 +92,11 @@ def instance_features(j, r):
 def run(chk, replay=None, prop="C07"):
     chk.stage_proofs(kernels=["Runner"])
     quick = chk.tier == "quick"
-    jobs = corpus_jobs() + make_jobs(chk, 10 if quick else 40)
+    def extra(rnd, j):
+        # every fourth graph is entered in the middle of the episode (init(starting_step > 0)): the steps of the later partitions still carry their own
+        # sequence numbers and read the scheduled windows
+        return dict(starting_step=rnd.choice([1, 2])) if rnd.random() < 0.25 else {}
+    jobs = corpus_jobs() + make_jobs(chk, 10 if quick else 40, extra=extra)
     res = cl.run_jobs(jobs, nproc=10)
     evaluate(chk, jobs, res, prop)
     chk.extra["rule"] = ("computation graphs generated by generate_graphs (non-blocking connections) and recorded by the threaded runtime "
